@@ -424,6 +424,9 @@ func (e *Engine) ProveLemma(pi *PkgInfo, lm *Lemma) *FuncResult {
 // method it implements: a synthetic body `return this.(*T).M(args...)` is verified against the interface contract.
 func (e *Engine) VerifyRefinement(pi *PkgInfo, ifaceFn *types.Func, ict *Contract, implT *types.Named, implFn *types.Func, implCt *Contract) *FuncResult {
 	name := fmt.Sprintf("%s.%s/refines(%s)", pi.Name, implCt.Name, ict.Name)
+	if !strings.HasPrefix(implCt.Name, implT.Obj().Name()+".") {
+		name = fmt.Sprintf("%s.%s[%s]/refines(%s)", pi.Name, implT.Obj().Name(), implCt.Name, ict.Name)
+	}
 	res := &FuncResult{Name: name, Pkg: pi.Name, Serves: uniq(append(append([]string{}, ict.Serves...), implCt.Serves...))}
 	c := e.newCtx(pi, name)
 	c.serves = res.Serves
